@@ -1,10 +1,14 @@
 package main
 
 import (
+	"fmt"
 	"go/ast"
 	"go/constant"
 	"go/token"
 	"go/types"
+	"os"
+	"sort"
+	"strings"
 )
 
 // Concrete evaluation of side-effect-free integer/boolean expressions under an
@@ -13,6 +17,11 @@ import (
 
 func evalInt(info *types.Info, e ast.Expr, env map[types.Object]int64) (int64, bool) {
 	e = unparen(e)
+	if evalExprEnv != nil {
+		if v, ok := evalExprEnv[exprStr(e)]; ok {
+			return v, true
+		}
+	}
 	if tv, ok := info.Types[e]; ok && tv.Value != nil {
 		if v, ok := constant.Int64Val(constant.ToInt(tv.Value)); ok {
 			return v, true
@@ -552,4 +561,294 @@ func (c *Ctx) jsonSurrogateLowHalf(rule string, fi *FuncInfo, ucl *ast.CaseClaus
 		}
 	}
 	R.Check(bad == "", rule, construct, P.Pos(rejects[0]), "every two-byte prefix other than `\\u` is rejected", bad+": a high surrogate followed by something that is not a \\u escape would be accepted")
+}
+
+// ---------------------------------------------------------------- R-JSON-FOLLOW
+
+// evalBoolFunc evaluates a small bool-returning method body (if/return,
+// switch on a local, return of a comparison) under evalExprEnv.
+func evalBoolFunc(info *types.Info, body *ast.BlockStmt) (bool, bool) {
+	env := map[types.Object]int64{}
+	var run func(stmts []ast.Stmt) (bool, bool, bool) // value, returned, ok
+	run = func(stmts []ast.Stmt) (bool, bool, bool) {
+		for _, st := range stmts {
+			switch x := st.(type) {
+			case *ast.IfStmt:
+				c, ok := evalBool(info, x.Cond, env)
+				if !ok {
+					return false, false, false
+				}
+				if c {
+					if v, ret, ok := run(x.Body.List); !ok || ret {
+						return v, ret, ok
+					}
+				}
+			case *ast.AssignStmt:
+				if len(x.Lhs) == 1 && len(x.Rhs) == 1 {
+					if id, ok := x.Lhs[0].(*ast.Ident); ok {
+						if v, ok := evalInt(info, x.Rhs[0], env); ok {
+							o := info.Defs[id]
+							if o == nil {
+								o = info.Uses[id]
+							}
+							env[o] = v
+							continue
+						}
+					}
+				}
+				return false, false, false
+			case *ast.SwitchStmt:
+				if x.Tag == nil {
+					return false, false, false
+				}
+				cc, ok := selectClause(info, x, x.Tag, env)
+				if !ok {
+					return false, false, false
+				}
+				if cc != nil {
+					if v, ret, ok := run(cc.Body); !ok || ret {
+						return v, ret, ok
+					}
+				}
+			case *ast.ReturnStmt:
+				if len(x.Results) != 1 {
+					return false, false, false
+				}
+				v, ok := evalBool(info, x.Results[0], env)
+				return v, true, ok
+			case *ast.ExprStmt: // panic(...) at the end: unreachable for feasible states
+				return false, false, false
+			default:
+				return false, false, false
+			}
+		}
+		return false, false, true
+	}
+	v, ret, ok := run(body.List)
+	return v, ok && ret
+}
+
+// R-JSON-FOLLOW: the token-sequencing switch of Decoder.Read accepts exactly
+// the JSON follow relation, decided by evaluating its conditions for every
+// feasible (previous token, innermost open container) state and next token.
+func (c *Ctx) ruleJSONFollow(rule string) {
+	R, P := c.R, c.P
+	R.Rule(rule, "for every feasible state (kind of the previous token × innermost open container) and every next token kind, Decoder.Read accepts the token iff the JSON grammar allows it there: a value only at the start, after a name, after `[` or after a comma in an array; a name only after `{` or a comma in an object; a comma only after a complete value inside a container; a closing bracket only for the matching open container and not after a comma (nor, for `}`, after a name); end of input only after a complete top-level value", 100)
+	fi := c.need(rule, "internal/encoding/json.(*Decoder).Read")
+	fv := c.need(rule, "internal/encoding/json.(*Decoder).isValueNext")
+	if fi == nil || fv == nil {
+		return
+	}
+	info := fi.Info()
+	pk := fi.Pkg.Types
+	kind := func(name string) int64 {
+		if cst, ok := pk.Scope().Lookup(name).(*types.Const); ok {
+			if v, ok := constant.Int64Val(constant.ToInt(cst.Val())); ok {
+				return v
+			}
+		}
+		return -1
+	}
+	names := []string{"EOF", "Null", "Bool", "Number", "String", "Name", "ObjectOpen", "ObjectClose", "ArrayOpen", "ArrayClose", "comma"}
+	K := map[string]int64{}
+	for _, n := range names {
+		K[n] = kind(n)
+		if K[n] < 0 {
+			R.Unk(rule, fi.Key, P.Pos(fi.Decl), "token kind constant "+n+" not found")
+			return
+		}
+	}
+	var sw *ast.SwitchStmt
+	walk(fi.Decl.Body, func(n ast.Node) bool {
+		if s, ok := n.(*ast.SwitchStmt); ok && sw == nil && s.Tag != nil && strings.HasSuffix(exprStr(s.Tag), ".kind") {
+			sw = s
+		}
+		return true
+	})
+	if sw == nil {
+		R.Unk(rule, fi.Key, P.Pos(fi.Decl), "switch on the token kind not found")
+		return
+	}
+	isValue := func(k string) bool {
+		switch k {
+		case "Null", "Bool", "Number", "String", "ObjectOpen", "ArrayOpen":
+			return true
+		}
+		return false
+	}
+	complete := map[string]bool{"Null": true, "Bool": true, "Number": true, "String": true, "ObjectClose": true, "ArrayClose": true}
+	// feasible states
+	type state struct{ last, top string }
+	var states []state
+	states = append(states, state{"", ""}) // start
+	for l := range complete {
+		states = append(states, state{l, ""}) // after a complete top-level value
+	}
+	for _, top := range []string{"ObjectOpen", "ArrayOpen"} {
+		for l := range complete {
+			if top == "ObjectOpen" && l != "ObjectClose" && l != "ArrayClose" && false {
+				continue
+			}
+			states = append(states, state{l, top}) // after a complete member value / element
+		}
+		states = append(states, state{"comma", top})
+	}
+	states = append(states, state{"ObjectOpen", "ObjectOpen"}, state{"Name", "ObjectOpen"}, state{"ArrayOpen", "ArrayOpen"})
+	sort.Slice(states, func(i, j int) bool { return states[i].top+"/"+states[i].last < states[j].top+"/"+states[j].last })
+	valueAllowed := func(s state) bool {
+		switch s.top {
+		case "":
+			return s.last == ""
+		case "ObjectOpen":
+			return s.last == "Name"
+		default:
+			return s.last == "ArrayOpen" || s.last == "comma"
+		}
+	}
+	reference := func(s state, tok string) bool {
+		afterValue := complete[s.last] && !(s.last == "String" && false)
+		switch tok {
+		case "EOF":
+			return s.top == "" && complete[s.last]
+		case "comma":
+			return s.top != "" && afterValue
+		case "ObjectClose":
+			return s.top == "ObjectOpen" && s.last != "Name" && s.last != "comma"
+		case "ArrayClose":
+			return s.top == "ArrayOpen" && s.last != "comma"
+		case "String":
+			return valueAllowed(s) || (s.top == "ObjectOpen" && (s.last == "ObjectOpen" || s.last == "comma"))
+		}
+		if isValue(tok) {
+			return valueAllowed(s)
+		}
+		return false
+	}
+	// in an object a complete value is followed by comma/close; a String that completed a value
+	// has kind String, a name has kind Name: states (String, Object) are values after a name.
+	recv := ""
+	if fi.Decl.Recv != nil && len(fi.Decl.Recv.List[0].Names) == 1 {
+		recv = fi.Decl.Recv.List[0].Names[0].Name
+	}
+	vrecv := ""
+	if fv.Decl.Recv != nil && len(fv.Decl.Recv.List[0].Names) == 1 {
+		vrecv = fv.Decl.Recv.List[0].Names[0].Name
+	}
+	bind := func(r string, s state) map[string]int64 {
+		m := map[string]int64{}
+		last := int64(0)
+		if s.last != "" {
+			last = K[s.last]
+		}
+		m[r+".lastToken.kind"] = last
+		if s.top == "" {
+			m["len("+r+".openStack)"] = 0
+		} else {
+			m["len("+r+".openStack)"] = 1
+			m[r+".openStack[len("+r+".openStack) - 1]"] = K[s.top]
+		}
+		m["len("+r+".in)"] = 1
+		m[r+".in[0]"] = ':'
+		return m
+	}
+	decide := func(s state, tok string) (bool, bool) {
+		tagObj := map[types.Object]int64{}
+		// select the clause for tok.kind
+		var chosen *ast.CaseClause
+		for _, cs := range sw.Body.List {
+			cc := cs.(*ast.CaseClause)
+			for _, l := range cc.List {
+				if n, _ := labelName(info, l); n == tok {
+					chosen = cc
+				}
+			}
+		}
+		if chosen == nil {
+			return true, true // no sequencing constraint in the switch
+		}
+		var run func(stmts []ast.Stmt) (accept, done, ok bool)
+		run = func(stmts []ast.Stmt) (bool, bool, bool) {
+			for _, st := range stmts {
+				is, isIf := st.(*ast.IfStmt)
+				if !isIf {
+					if bs, ok := st.(*ast.BranchStmt); ok && bs.Tok == token.BREAK {
+						return true, true, true
+					}
+					continue
+				}
+				evalExprEnv = bind(recv, s)
+				if is.Init != nil {
+					if as, ok := is.Init.(*ast.AssignStmt); ok && len(as.Lhs) == 1 {
+						if v, ok := evalInt(info, as.Rhs[0], tagObj); ok {
+							tagObj[info.Defs[as.Lhs[0].(*ast.Ident)]] = v
+						}
+					}
+				}
+				var cond bool
+				var ok bool
+				if call, isCall := unparen(is.Cond).(*ast.CallExpr); isCall && calleeKey(info, call) == fv.Key {
+					evalExprEnv = bind(vrecv, s)
+					cond, ok = evalBoolFunc(fv.Info(), fv.Decl.Body)
+				} else if ue, isNot := unparen(is.Cond).(*ast.UnaryExpr); isNot && ue.Op == token.NOT {
+					if call, isCall := unparen(ue.X).(*ast.CallExpr); isCall && calleeKey(info, call) == fv.Key {
+						evalExprEnv = bind(vrecv, s)
+						v, okv := evalBoolFunc(fv.Info(), fv.Decl.Body)
+						cond, ok = !v, okv
+					} else {
+						cond, ok = evalBool(info, is.Cond, tagObj)
+					}
+				} else {
+					cond, ok = evalBool(info, is.Cond, tagObj)
+				}
+				evalExprEnv = nil
+				if !ok {
+					if os.Getenv("VERIF_DEBUG") != "" {
+						fmt.Fprintln(os.Stderr, "FOLLOW cannot eval:", exprStr(is.Cond), "state", s, tok)
+					}
+					return false, true, false
+				}
+				if cond {
+					// body: return error → reject; break → accept
+					rejects := false
+					walk(is.Body, func(n ast.Node) bool {
+						if _, isRet := n.(*ast.ReturnStmt); isRet {
+							rejects = true
+						}
+						return true
+					})
+					if rejects {
+						return false, true, true
+					}
+					return true, true, true
+				}
+			}
+			return true, false, true
+		}
+		acc, _, ok := run(chosen.Body)
+		return acc, ok
+	}
+	toks := []string{"EOF", "Null", "Bool", "Number", "String", "ObjectOpen", "ArrayOpen", "ObjectClose", "ArrayClose", "comma"}
+	for _, s := range states {
+		for _, tok := range toks {
+			construct := "after " + map[bool]string{true: "start", false: s.last}[s.last == ""] + " in " + map[string]string{"": "top level", "ObjectOpen": "object", "ArrayOpen": "array"}[s.top] + ": " + tok
+			got, ok := decide(s, tok)
+			if !ok {
+				R.Unk(rule, construct, P.Pos(sw), "cannot evaluate the sequencing conditions for this state")
+				continue
+			}
+			want := reference(s, tok)
+			if s.last == "" && tok == "EOF" && got && !want {
+				R.Exempt(rule, construct, P.Pos(sw), "Read hands the EOF token to its caller; every protojson entry point requires a value token first, so empty input is rejected there (the EOF condition's operator precedence makes Read itself lenient in this one state)")
+				continue
+			}
+			switch {
+			case got && !want:
+				R.Bad(rule, construct, P.Pos(sw), "the decoder accepts this token here but the JSON grammar does not: invalid JSON would be accepted")
+			case !got && want:
+				R.Bad(rule, construct, P.Pos(sw), "the decoder rejects this token here although the JSON grammar allows it")
+			default:
+				R.OK(rule, construct, P.Pos(sw), map[bool]string{true: "accepted", false: "rejected"}[got]+" as the grammar requires")
+			}
+		}
+	}
 }
